@@ -157,6 +157,39 @@ class Ctx:
         return 1 if self.violations else 0
 
 
+def replay(prop: str, path: str, ctx: "Ctx") -> int:
+    """./harness/check <ID> --replay <file>: judge one stored failing case again. Where the property's module knows how
+    (REPLAY = (trace module, cfg, function that re-runs the REAL code on the stored input)), the input is run through the
+    current /repo first; otherwise the stored observation is judged as it is. Exit 1 if it still fails, 0 if not."""
+    import importlib
+    from . import batch
+    with open(path) as f:
+        stored = json.load(f)
+    mod = importlib.import_module(f"props.{prop.lower()}")
+    spec = getattr(mod, "REPLAY", None)
+    case = stored["case"]
+    print(f"replaying {path}: stored clauses {stored.get('clauses')}")
+    code = 0
+    try:
+        if spec is None:
+            print("this property's failing cases are whole pipeline runs; the stored case is:")
+            print(json.dumps(case)[:2000])
+            code = 1
+        else:
+            module, cfg, rerun, strip_keys = spec
+            rec = rerun(case) if rerun else case
+            payload = {k: v for k, v in rec.items() if k not in strip_keys}
+            verdicts, _ = batch.validate(module, cfg, ctx.workdir, [payload])
+            failed, drift = verdicts.get(0, ([], []))
+            print(f"re-run on {REPO}: failed clauses {failed} drift {drift}")
+            if failed:
+                print(f"VIOLATION property={prop} replay={path}  clauses={','.join(failed)}")
+                code = 1
+    finally:
+        shutil.rmtree(ctx.workdir, ignore_errors=True)
+    return code
+
+
 def main_wrapper(prop: str, fn: Callable[[Ctx], None], level: str = "model_checking"):
     import argparse
     ap = argparse.ArgumentParser()
@@ -166,6 +199,8 @@ def main_wrapper(prop: str, fn: Callable[[Ctx], None], level: str = "model_check
     seed = int(os.environ.get("VERIF_SEED", "0") or 0)
     ctx = Ctx(prop, a.tier, seed, level)
     ctx.replay = a.replay
+    if a.replay:
+        sys.exit(replay(prop, a.replay, ctx))
     try:
         fn(ctx)
         code = ctx.finish()
